@@ -17,6 +17,14 @@ Theorem C05_generated_kernel_leaves : forall c,
   CheckExcess.check_excess_parentheses (FmAst.Expression_FunctionCall tt) c = false.
 Proof. exact ParensTie.generated_check_leaves. Qed.
 Print Assumptions C05_generated_kernel_leaves.
+(* ... and the guard translated from /repo's parenthesise_double_minus (with the starts_with_minus inside it) is the model's [guard]:
+   parentheses come back exactly around an operand of a unary minus that starts - through type assertions - with a unary minus *)
+From SV Require MinusGuardProof.
+From SVgen Require MinusGuard.
+Theorem C05_generated_guard_is_model : forall oracle : FmAst.Expression -> FmAst.Expression * unit, (forall e, fst (oracle e) = e) ->
+  forall u x, MinusGuard.parenthesise_double_minus oracle (ParensTie.embed_uop u) (ParensTie.embed x) = ParensTie.embed (guard u x).
+Proof. exact MinusGuardProof.generated_guard_is_model. Qed.
+Print Assumptions C05_generated_guard_is_model.
 
 (* For every context, every expression and EVERY result the rule can give on any mixture of the single-line and
    hanging paths (R): grouping and multi-value truncation are unchanged ... *)
@@ -52,3 +60,15 @@ Print Assumptions C05_paths_in_R.
 Theorem C05_membership_sound : forall e c o, inR c e o = true -> R c e o.
 Proof. exact ParensProof.inR_sound. Qed.
 Print Assumptions C05_membership_sound.
+(* conditions (if / elseif / while / until) lose every layer of parentheses around them (stmt.rs remove_condition_parentheses, D42):
+   a condition uses the first value of its expression only, and neither the stripping nor the rule applied to what remains
+   changes that first value - while elsewhere the same parentheses do matter *)
+From SV Require ParensIdem.
+Theorem C05_condition_parentheses_cannot_matter : forall e,
+  first_value (Sm (fmt_single Std (strip e))) = first_value (Sm e).
+Proof. exact ParensIdem.condition_rule_keeps_first_value. Qed.
+Print Assumptions C05_condition_parentheses_cannot_matter.
+Theorem C05_the_same_parentheses_matter_elsewhere :
+  Sm (Paren Multi) <> Sm Multi /\ first_value (Sm (Paren Multi)) = first_value (Sm Multi).
+Proof. exact ParensIdem.parentheses_truncate. Qed.
+Print Assumptions C05_the_same_parentheses_matter_elsewhere.
